@@ -13,18 +13,53 @@ def summary(obs):
     """what must be equal between the direct and the trait run of the same scenario (random values
     differ between two runs: compare shapes, statuses, call sequences and store sizes)"""
     out = []
+    def call(e):
+        if e["c"] == "save":
+            # everything the store is asked to save except the random parts (key, credential id, PRF secrets)
+            p = e["p"]
+            return "save" + json.dumps([e["r"], e["user"], e["rp"], e["opts"], p["rp_id"], p["user_handle"], p["counter"], p["hmac"] is not None,
+                                        len(p["cred_id"])], sort_keys=True)
+        if e["c"] == "update":
+            p = e["p"]
+            return "update" + json.dumps([e["r"], p["cred_id"], p["rp_id"], p["user_handle"], p["counter"], p["hmac"]], sort_keys=True)
+        if e["c"] == "find":
+            return "find" + json.dumps([e["ids"], e["rp"], "ok" if "ok" in e["r"] else e["r"]], sort_keys=True)
+        return e["c"] + json.dumps(e.get("r"))
     for o in obs["ops"]:
         r = o["result"]
-        out.append((["%s" % e["c"] + json.dumps(e.get("r")) if e["c"] not in ("save", "update", "find") else e["c"] + json.dumps(e["r"])[:8] for e in o["log"]],
-                    "ok" if "ok" in r else r.get("err"), len(o["store_after"]),
+        res = "ok" if "ok" in r else r.get("err")
+        if "ok" in r and isinstance(r["ok"], dict) and "versions" in r["ok"]:
+            res = json.dumps(r["ok"], sort_keys=True)              # getInfo is deterministic: the whole response is compared
+        out.append(([call(e) for e in o["log"]], res, len(o["store_after"]),
                     sorted(json.dumps([p["rp_id"], p["counter"], p["user_handle"]]) for p in o["store_after"])))
     return out
+
+
+def directed(run):
+    """sequences the random histories rarely contain: getInfo repeated (around other operations), and registrations whose
+    user / RP names are long (64, 65, 100, 300 bytes, multi-byte characters) - the store must be asked to save the same
+    entities through the trait as directly"""
+    rng = run.rng
+    scs = []
+    gi = lambda: {"op": "get_info"}
+    for kind in ("memory", "ref", "option"):
+        for disc in ("full", "only_non", "forced"):
+            scs.append(scenario(store_kind=kind, disc=disc, ops=[gi(), gi()], user={"verif_enabled": rng.choice([None, False, True])}))
+        scs.append(scenario(store_kind=kind, ops=[gi(), {"op": "make_credential", "req": mc_req(rng, rk=True)}, gi()],
+                            config={"hmac": {"without_uv": True, "on_mc": False}}))
+    for n in (64, 65, 100, 300):
+        for ch in ("a", "\u00e9", "\u6f22"):
+            name = (ch * n)[: n if ch == "a" else n // len(ch.encode("utf-8"))]
+            for kind in ("ref", "memory"):
+                scs.append(scenario(store_kind=kind, ops=[{"op": "make_credential", "req": mc_req(rng, name=name, display=name + "!", rp_name=name + "?")}]))
+    return scs
 
 
 def check(run):
     common.run_translator("dispatch")
     n = 60 if run.tier == "quick" else 2000
-    direct = [gen_history(run.rng, run.tier, with_hmac=True, max_ops=3) for _ in range(n)]
+    direct = directed(run) + [gen_history(run.rng, run.tier, with_hmac=True, max_ops=3) for _ in range(n)]
+    n = len(direct)
     viaapi = []
     for sc in direct:
         t = copy.deepcopy(sc)
